@@ -8,7 +8,11 @@ bodies) plus two independent computations:
     frame change of _transform_wrenches from everything else;
   * tree_equals_bruteforce: candidate pairs of the AABB tree query vs an own numpy all-pairs interval test (and vs the library's brute
     force); through the public switch use_aabb_trees=True when that call works at all.
+  * repeatable: the call history (b1,b2),(b1,b2),(b1,b3),(b1,b2),(b2,b1),(b1,b2),(b3,b1),(b2,b3),(b1,b2) is executed on the SAME mutated objects;
+    every (b1,b2) result is compared with the first one and every other step with the same pair on fresh, never re-expressed bodies;
+    afterwards the caches (tetrahedra_points, aabbs, com) of all three bodies are compared with a direct computation.
 Tolerance of the force clauses: 5 % of the force magnitude (property text); torques: 5 % of max(|torque|, |force| * body diameter).
+Rotated sphere bodies are RigidBody(pose, *make_tetrahedral_sphere(...)) because RigidBody.make_sphere only takes a centre.
 
 Contracts (stable):  hydroelastic.contact_forces[<k1>,<k2>]                 general rotations of both bodies
                      hydroelastic.contact_forces[<k1>,<k2>;body2_at_origin]  body 2 has the identity pose (the only case upstream tests)
@@ -283,9 +287,30 @@ def run_scene(task):
                 if not ok:
                     ctx.fail("repeatable", f"{nm} = {np.asarray(b).tolist()} on the first call, {np.asarray(a).tolist()} after the call history {history} (|diff| = {dev:.4g})")
         else:
-            x, y = dict(b1=b1, b2=b2, b3=b3)[step[1:3]], dict(b1=b1, b2=b2, b3=b3)[step[4:6]]
-            if call(x, y, f"contact_forces{step} in history {history}") is None:
+            objs = dict(b1=b1, b2=b2, b3=b3)
+            x, y = objs[step[1:3]], objs[step[4:6]]
+            r = call(x, y, f"contact_forces{step} in history {history}")
+            if r is None:
                 break
+            # the same pair computed on fresh, never re-expressed bodies must give the same answer
+            mk = dict(b1=lambda: make_body(k1, p1, T1, E1), b2=lambda: make_body(k2, p2, T2, E2), b3=lambda: make_body(k3, p3, T3, 1.0))
+            q = call(mk[step[1:3]](), mk[step[4:6]](), f"contact_forces{step} on fresh bodies")
+            if q is not None:
+                if q[0] != r[0]:
+                    ctx.fail("flag_unchanged", f"contact_forces{step}: intersection = {q[0]} on fresh bodies and {r[0]} on the re-expressed bodies after the call history {history}",
+                             extra=dict(body3=dict(kind=k3, **p3, pose=T3.tolist(), youngs_modulus=1.0)))
+                for a, b, nm in ((r[1][:3], q[1][:3], "f12"), (r[2][:3], q[2][:3], "f21")):
+                    ok, dev = close(a, b, floor)
+                    if not ok:
+                        ctx.fail("repeatable", f"contact_forces{step}: {nm} = {np.asarray(b).tolist()} on fresh bodies, {np.asarray(a).tolist()} on the re-expressed bodies after the "
+                                 f"call history {history} (|diff| = {dev:.4g})", extra=dict(body3=dict(kind=k3, **p3, pose=T3.tolist(), youngs_modulus=1.0)))
+    for nm, b in (("b1", b1), ("b2", b2), ("b3", b3)):
+        tp = b.vertices_[b.tetrahedra_]
+        vol = np.abs(np.linalg.det(tp[:, 1:] - tp[:, :1])) / 6.0
+        com = (vol[:, None] * tp.mean(axis=1)).sum(axis=0) / vol.sum()
+        if not (np.array_equal(b.tetrahedra_points, tp) and np.array_equal(b.aabbs, np.stack((tp.min(axis=1), tp.max(axis=1)), axis=2))
+                and np.max(np.abs(np.asarray(b.com) - com)) <= 1e-9 * L):
+            ctx.fail("cache_consistent", f"tetrahedra_points / aabbs / com of {nm} are stale after the call history {history}")
 
     # ---- broad phase: tree vs brute force
     try:
@@ -343,7 +368,7 @@ def youngs(rng):
 def build_tasks(tier, rng):
     thorough = tier == "thorough"
     tasks = []
-    reps = dict(general=3, origin=1, translated=1, lattice=1) if not thorough else dict(general=40, origin=10, translated=10, lattice=20)
+    reps = dict(general=3, origin=1, translated=1, lattice=1) if not thorough else dict(general=28, origin=8, translated=8, lattice=14)
     for k1, k2 in itertools.product(KINDS, KINDS):
         for fam, n in reps.items():
             for rep in range(n):
